@@ -63,6 +63,16 @@ func c18Gen(r *rand.Rand, tier string) any {
 				}
 			}
 		}
+		if r.IntN(8) == 0 && sc.Mode != "cycle" {
+			// REPL / watch: a dry run with options, (N=1: a Reload,) then Run with nil options on
+			// the same loaded project
+			op = opSpec{Op: "build", Label: op.Label, DryNil: true, N: r.IntN(2), Fail: op.Fail}
+		}
+		if r.IntN(14) == 0 {
+			// a typo on the command line: the requested label names no target
+			op.Label = []string{"//:no_such_target", "//no_such_pkg:default", ":no_such"}[r.IntN(3)]
+			op.Fail = nil
+		}
 		sc.Ops = append(sc.Ops, op)
 		if op.Dry && !op.Twice && op.N == 0 && r.IntN(2) == 0 {
 			// the real build of the same tree right after the dry run
@@ -249,12 +259,12 @@ func c18Exec(scAny any, c *simcheck.Ctx) *simcheck.Violation {
 		}
 		if len(cur) > 0 {
 			c.St.Count("events_after_run_done_of_other_targets", 1)
-			if op.Twice {
+			if op.Twice || op.DryNil {
 				return nil // late events of the first run would be attributed to the second
 			}
 		}
 		want := 1
-		if op.Twice {
+		if op.Twice || op.DryNil {
 			want = 2
 		}
 		if len(runs) != want {
@@ -277,11 +287,18 @@ func c18Exec(scAny any, c *simcheck.Ctx) *simcheck.Violation {
 				}
 			}
 			runErr := res.RunErr
-			if op.Twice && ri == 0 {
+			if (op.Twice || op.DryNil) && ri == 0 {
 				runErr = res.FirstRunErr
 			}
 			c.St.Count("runs_checked", 1)
-			if v := checkRunEvents(h, op, evs, runErr, written, started, op.Dry, res.Sim.IOOps >= op.N && op.N > 0 && len(res.Sim.FaultsHit) > 0); v != nil {
+			dry := op.Dry || (op.DryNil && ri == 0)
+			if op.DryNil {
+				c.St.Count("dry_then_nil_options_runs_checked", 1)
+			}
+			if v := checkRunEvents(h, op, evs, runErr, written, started, dry, !op.DryNil && res.Sim.IOOps >= op.N && op.N > 0 && len(res.Sim.FaultsHit) > 0); v != nil {
+				if op.DryNil {
+					v.Msg = fmt.Sprintf("(run %d of: dry run, then Run with nil options, on one loaded project) %s", ri+1, v.Msg)
+				}
 				if op.Twice {
 					v.Msg = fmt.Sprintf("(run %d of 2 on one loaded project) %s", ri+1, v.Msg)
 				}
